@@ -67,7 +67,8 @@ Definition col_sum g r2n r2d (j : Z) : Z := zlen (filter (fun c => near g r2n r2
 Definition zmax_list (l : list Z) : Z := fold_right Z.max 0 l.
 Definition n_nbors g r2n r2d : Z := zmax_list (map (col_sum g r2n r2d) (chans g)).
 Definition channel_index g r2n r2d (padv : Z) : list (list Z) :=
-  map (fun c => pad (nbr_row g r2n r2d c) (n_nbors g r2n r2d) padv) (chans g).
+  let nn := n_nbors g r2n r2d in
+  map (fun c => pad (nbr_row g r2n r2d c) nn padv) (chans g).
 
 (* ---------- configuration of one extraction ---------- *)
 Record cfg := mkCfg {
@@ -180,9 +181,9 @@ Section Extract.
   (* ---- write_wfs_chunk / extract_wfs_array ---- *)
   Definition cidx : list (list Z) := channel_index (c_geom P) (c_r2n P) (c_r2d P) (c_nc P).
   (* channel_neighbors[peak_channel] *)
-  Definition chan_row (pc : Z) : option (list Z) :=
-    match wrap_index (zlen cidx) pc with
-    | Some p => Some (znth [] cidx p)
+  Definition chan_row (ci : list (list Z)) (pc : Z) : option (list Z) :=
+    match wrap_index (zlen ci) pc with
+    | Some p => Some (znth [] ci p)
     | None => None
     end.
   (* arr[:, sind][cind, :] with the NaN row appended at index nc *)
@@ -190,16 +191,16 @@ Section Extract.
     map (fun ch => map (fun c => if ch =? c_nc P then None else Some (src ch c)) cols) cind.
   Definition chunk_offset (i : Z) : Z := if i =? 0 then 0 else c_to P.
   (* one waveform of chunk i; the snippet is recording[a : a+len] *)
-  Definition chunk_wf (i a len : Z) (r : row) : option wf :=
+  Definition chunk_wf (ci : list (list Z)) (i a len : Z) (r : row) : option wf :=
     let loc := r_sample r + chunk_offset i - i * c_size P in
-    match chan_row (r_chan r),
+    match chan_row ci (r_chan r),
           sequence (map (fun t => option_map (Z.add a) (wrap_index len (loc + t - c_to P)))
                         (zrange (Z.to_nat (c_L P)))) with
     | Some cind, Some cols => Some (gather cind cols)
     | _, _ => None
     end.
   (* the (row, waveform) pairs chunk i writes; None = the job raises *)
-  Definition chunk_writes (tb : list row) (i : Z) : option (list (Z * wf)) :=
+  Definition chunk_writes (ci : list (list Z)) (tb : list row) (i : Z) : option (list (Z * wf)) :=
     let rows := slice_rows tb i in
     match rows with
     | [] => Some []                                        (* if len(wf_flat) == 0: return *)
@@ -210,19 +211,20 @@ Section Extract.
       let lastr := last rows drow in
       (* assert last_idx + (spike_length_samples - trough_offset) < arr.shape[1] *)
       if (r_sample lastr + chunk_offset i - i * c_size P) + (c_L P - c_to P) <? len
-      then sequence (map (fun r => option_map (pair (r_wfi r)) (chunk_wf i a len r)) rows)
+      then sequence (map (fun r => option_map (pair (r_wfi r)) (chunk_wf ci i a len r)) rows)
       else None
     end.
-  Definition job_writes (tb : list row) : list (option (list (Z * wf))) :=
-    map (chunk_writes tb) (zrange (Z.to_nat nchunks)).
-  Definition all_writes (tb : list row) : option (list (Z * wf)) :=
-    option_map (@concat _) (sequence (job_writes tb)).
+  Definition job_writes (ci : list (list Z)) (tb : list row) : list (option (list (Z * wf))) :=
+    map (chunk_writes ci tb) (zrange (Z.to_nat nchunks)).
+  Definition all_writes (ci : list (list Z)) (tb : list row) : option (list (Z * wf)) :=
+    option_map (@concat _) (sequence (job_writes ci tb)).
   (* memmap: None = never written (zeros on disk) *)
   Definition apply_writes (ws : list (Z * wf)) (m : list (option wf)) : list (option wf) :=
     fold_left (fun m e => upd m (Z.to_nat (fst e)) (Some (snd e))) ws m.
-  Definition mem0 : list (option wf) := repeat None (length table).
+  Definition mem0 (tb : list row) : list (option wf) := repeat None (length tb).
   Definition traces : option (list (option wf)) :=
-    option_map (fun ws => apply_writes ws mem0) (all_writes table).
+    let tb := table in
+    option_map (fun ws => apply_writes ws (mem0 tb)) (all_writes cidx tb).
 
   (* the reference: window of the whole recording around sample s on the neighbours of pc *)
   Definition window (s pc : Z) : wf :=
@@ -265,7 +267,8 @@ Section Extract.
     map (fun g => (g_first g, g_last g + 1)) (groups sorted_table).
   (* channel_neighbors[peak_channel.astype(int16)] *)
   Definition chan_map : option (list (list Z)) :=
-    sequence (map (fun r => chan_row (to_int16 (r_chan r))) sorted_table).
+    let ci := cidx in
+    sequence (map (fun r => chan_row ci (to_int16 (r_chan r))) sorted_table).
 
   (* ---- WaveformsLoader.load_waveforms(labels, indices), data version 2 ---- *)
   Definition load_rows (tb : list row) (iw : list Z) (labels : option (list Z))
